@@ -109,11 +109,25 @@ def magnitude_op(spec):
 MAG_MEM = 32 << 20
 
 
+RULE_SWEEP_FIRST = MAG_TASKS
+
+
 def build_ops(spec):
     i = spec["index"]
     if i < MAG_TASKS:
         op = magnitude_op(spec)
         return op, None, block_names(op)
+    from gsim.checks import c01
+    if RULE_SWEEP_FIRST <= i < RULE_SWEEP_FIRST + c01.SWEEP_TASKS:
+        # the deterministic rule sweep of C01 (every rule pattern in five shapes), here under the time and memory budget:
+        # a rule that never reaches its fixpoint shows up as a budget overrun
+        bl = c01.rule_sweep_blocks(i - RULE_SWEEP_FIRST)
+        if bl:
+            flags = [[], ["-size"], ["-storage"], ["-partition"]][i % 4] + ["-greedy"]
+            op = C.bl_op(bl, flags)
+            op["fmt"] = "bl"
+            op["desc"] = {"split": "none", "crit": "gas", "rules": True, "push0": True, "backend": "-greedy"}
+            return op, None, block_names(op)
     rf = stream(spec["seed"], i, "fs")
     backend = "-greedy" if i % 5 else "solver"
     op = C.build_pipe_op(spec, backend=backend, profile="nasty" if i % 2 == 0 else None,
